@@ -238,12 +238,52 @@ def r4_context_siblings(ck, cx):
     ck.floor('R4', len(ref), 2, 'zero_mode polarities')
 
 
+def r13_accessors_keep_no_state(ck, cx, rule='R13'):
+    """validate / getValues / setValues of the slave context are look-ups in `self.store` followed by a delegation to the block:
+    they change the BLOCK, never the context.  An accessor that writes an attribute of the context itself (a memo of the block per
+    function code, a last-address cache) creates state that register() / reset() / a swapped table have to keep coherent for
+    every function code that shares the table -- the register file the requests see is then no longer the one in the store."""
+    ck.rule(rule, 'the accessors of ModbusSlaveContext (validate / getValues / setValues and what they call on self) write no attribute of the context: every call looks its table up in the store')
+    from .c02 import _self_callees
+    k = cx.idx.cls('pymodbus.datastore.context.ModbusSlaveContext')
+    MUT = ('setdefault', 'update', '__setitem__', 'append', 'add', 'pop', 'popitem', 'clear', 'insert', 'extend', 'remove')
+    n = 0
+    for name in ('validate', 'getValues', 'setValues'):
+        root = cx.idx.find_method(k, name)
+        if root is None:
+            continue
+        for fn in _self_callees(cx, k, root).values():
+            ck.saw('functions', fn.qn)
+            n += 1
+            for x in ast.walk(fn.node):
+                hit = None
+                if isinstance(x, (ast.Assign, ast.AugAssign)):
+                    for t in (x.targets if isinstance(x, ast.Assign) else [x.target]):
+                        for el in (t.elts if isinstance(t, (ast.Tuple, ast.List)) else [t]):
+                            base = el
+                            while isinstance(base, ast.Subscript):
+                                base = base.value
+                            if isinstance(base, ast.Attribute) and U(base.value) == 'self':
+                                hit = U(el)
+                elif isinstance(x, ast.Call) and isinstance(x.func, ast.Attribute) and x.func.attr in MUT and isinstance(x.func.value, ast.Attribute) and U(x.func.value.value) == 'self' \
+                        and x.func.value.attr != 'store':
+                    hit = U(x.func)
+                if hit:
+                    ck.ob(rule, fn.qn, 'writes no attribute of the context', False, detail='context-accessor-writes-own-state %s' % hit[:40], loc=cx.floc(fn, x),
+                          message='%s (reached from ModbusSlaveContext.%s) writes `%s`: the context remembers something about its tables between requests, which register() or a '
+                                  'replaced block has to invalidate for every function code sharing that table — otherwise reads and writes of one code go to another block '
+                                  'than those of its siblings' % (fn.qn, name, hit[:60]))
+    ck.ob(rule, k.qn, 'accessor methods examined', n >= 3, detail='accessors-missing', loc=k.loc)
+    ck.floor(rule, n, 3, 'accessor methods of the slave context (with helpers)')
+
+
 def run(ck, tier):
     cx = Ctx()
     ck.guard(r1_fx, ck, cx)
     ck.guard(r2_execute, ck, cx)
     ck.guard(r3_mask_write, ck, cx)
     ck.guard(r4_context_siblings, ck, cx)
+    ck.guard(r13_accessors_keep_no_state, ck, cx)
     from .c18 import r6_table_isolation
     ck.guard(r6_table_isolation, ck, cx, 'R5')
     ck.rule('R6', 'block getValues/setValues read and write exactly the addressed cells (shared with C18 R2/R3)')
